@@ -72,7 +72,30 @@ var (
 	reRT     = regexp.MustCompile(`^rt[0-9]+$`)
 	reAT     = regexp.MustCompile(`^at[0-9]+$`)
 	reSplit  = regexp.MustCompile(`[^A-Za-z0-9_.\-]+`)
+	// form controls of an HTML answer (response_mode=form_post): <input|textarea|button ... name= value=>, any attribute order / quoting
+	reInput = regexp.MustCompile(`(?is)<(?:input|textarea|button|select|option)\b[^>]*>`)
+	reAttr  = regexp.MustCompile(`(?is)\b(name|value)\s*=\s*(?:"([^"]*)"|'([^']*)'|([^\s"'>]+))`)
 )
+
+// formFields returns the (name, value) pairs of the form controls of an HTML body.
+func formFields(body string) [][2]string {
+	var out [][2]string
+	for _, tag := range reInput.FindAllString(body, -1) {
+		var name, value string
+		for _, m := range reAttr.FindAllStringSubmatch(tag, -1) {
+			v := html.UnescapeString(m[2] + m[3] + m[4])
+			if strings.EqualFold(m[1], "name") {
+				name = v
+			} else {
+				value = v
+			}
+		}
+		if name != "" {
+			out = append(out, [2]string{name, value})
+		}
+	}
+	return out
+}
 
 // credential kinds, in the order of the Gallina list
 var credOrder = []string{"CCode", "CAccess", "CRefresh", "CIDToken", "CClaims", "CActive", "CDevice"}
@@ -128,6 +151,10 @@ func scan(e env, resp *opfix.Resp) map[string]bool {
 				byName(k, v[0])
 			}
 		}
+	}
+	// what a user agent would submit from a 200 HTML page (form_post), whatever the status
+	for _, kv := range formFields(resp.Body) {
+		byName(strings.ToLower(strings.TrimSpace(kv[0])), kv[1])
 	}
 	st := e.f.Store
 	devs := map[string]bool{}
@@ -245,6 +272,10 @@ func observe(e env, fl flow, resp *opfix.Resp) obs {
 // oneDocument: a JSON body holds exactly one JSON value (a second answer appended to the
 // first would be a second value).
 func oneDocument(resp *opfix.Resp) bool {
+	// an HTML page (form_post) ends with </html>: anything after it is a second answer
+	if i := strings.Index(strings.ToLower(resp.Body), "</html>"); i >= 0 && strings.TrimSpace(resp.Body[i+len("</html>"):]) != "" {
+		return false
+	}
 	if !strings.HasPrefix(resp.Header.Get("Content-Type"), "application/json") || strings.TrimSpace(resp.Body) == "" {
 		return true
 	}
@@ -361,6 +392,8 @@ func run(fl flow, r opfix.Router, sv string, in incid, p plan, warm bool) (o obs
 		f, err = opfix.NewWithIssuerStorage(st, opfix.Options{}, op.StaticIssuer(opfix.Issuer), func(op.Storage) op.Storage { return st.AsMaxStorage() })
 	case "SMin":
 		f, err = opfix.NewWithIssuerStorage(st, opfix.Options{}, op.StaticIssuer(opfix.Issuer), func(op.Storage) op.Storage { return st.AsMinStorage() })
+	case "SKeep": // the failing call has done its work: results and side effects accompany the error
+		f, err = opfix.NewWithIssuerStorage(st, opfix.Options{}, op.StaticIssuer(opfix.Issuer), func(op.Storage) op.Storage { return st.AsKeepStorage() })
 	default:
 		f, err = opfix.New(st, opfix.Options{})
 	}
@@ -462,7 +495,7 @@ func main() {
 			// incidental request values come from the seed; they do not influence the model
 			in := incid{state: word(1 + rnd.IntN(12)), nonce: word(1 + rnd.IntN(12)),
 				verifier: "v" + strings.Repeat("x", 42+rnd.IntN(20)) + fmt.Sprint(rnd.IntN(1000)), user: drv.Pick(rnd, []string{"alice", "bob"})}
-			for _, sv := range []string{"SStd", "SMax", "SMin"} {
+			for _, sv := range []string{"SStd", "SMax", "SMin", "SKeep"} {
 				for _, warm := range []bool{false, true} {
 					if warm && sv != "SStd" && cfg.Quick {
 						continue
@@ -504,7 +537,7 @@ func main() {
 		for ki := range ks {
 			kd := &ks[ki]
 			// warm providers and, in the quick tier, the SMax / SMin storages: the three "warm" values
-			reduced := g.warm || (!std && cfg.Quick)
+			reduced := g.warm || (!std && cfg.Quick) || (g.fl.light && cfg.Quick)
 			if reduced && !kd.warm {
 				continue
 			}
@@ -573,7 +606,7 @@ func main() {
 		os.Exit(2)
 	}
 	err := w.Close(emit.Meta{Property: "C10", Tier: cfg.Tier, Seed: cfg.Seed, Exhaustive: true,
-		Rule:  "Exhaustive enumeration, not sampled: every flow variant (authorize with a registered and with an unregistered redirect_uri, callback code / id_token / id_token token, token grants code, refresh, client_credentials, jwt-bearer, token-exchange, device; userinfo, introspect, revoke access/refresh incl. JWT access tokens, device authorization, end session, keys, discovery, ready) x both routers x {SStd: refstore as it is; SMax: every optional storage interface implemented (CanTerminateSessionFromRequest, CanGetPrivateClaimsFromRequest, TokenExchangeTokensVerifierStorage, JWTProfileTokenStorage in addition); SMin: only the grant storages, no CanSetUserinfoFromRequest} x {cold: fresh provider instance; warm: the same instance has served the whole flow once, fault free, before} x {no fault; k-th storage call fails for k = 1..calls of the fault-free run; every call of method m fails for each m of that run} x the VALUE of the failure: plain error, context.DeadlineExceeded, context.Canceled, *oidc.Error (server_error, invalid_request, invalid_client, access_denied, redirect-disabled invalid_request), op.ErrDuplicateUserCode, op.ErrInvalidRefreshToken, each bare and wrapped with %w (20 values: 14 core values for the k-th-call plans of every flow variant, 5 of them for the method plans, 3 on warm providers; thorough adds the response_mode variants, the plain-error method plans on warm providers, and runs the 6 remaining wrapped values on the first variant of each flow; SMax / SMin: the 3 warm values + plain method plans in the quick tier, like SStd in the thorough tier). Fresh store and provider per run, fault-free preparation through the fixture, then ResetJournal + fault plan + the request under test, every request under a 10 s time-out. The seed only varies incidental request values (state, nonce, verifier, user). Non-trivial = a fault plan is set (path != 0); distinct = distinct (flow, router, warm, plan).",
+		Rule:  "Exhaustive enumeration, not sampled: every flow variant (authorize with a registered redirect_uri in every response_type {code, id_token, id_token token} x response_mode {none, query, fragment, form_post} and with an unregistered redirect_uri; callback code / id_token / id_token token, each in every response_mode; token grants code, refresh, client_credentials, jwt-bearer, token-exchange, device; userinfo, introspect, revoke access/refresh incl. JWT access tokens, device authorization, end session, keys, discovery, ready) x both routers x {SStd: refstore as it is; SMax: every optional storage interface implemented (CanTerminateSessionFromRequest, CanGetPrivateClaimsFromRequest, TokenExchangeTokensVerifierStorage, JWTProfileTokenStorage in addition); SMin: only the grant storages, no CanSetUserinfoFromRequest; SKeep: interfaces of SStd, but the failing call has done its work - its results and side effects come back together with the error} x {cold: fresh provider instance; warm: the same instance has served the whole flow once, fault free, before} x {no fault; k-th storage call fails for k = 1..calls of the fault-free run; every call of method m fails for each m of that run} x the VALUE of the failure: plain error, context.DeadlineExceeded, context.Canceled, *oidc.Error (server_error, invalid_request, invalid_client, access_denied, redirect-disabled invalid_request), op.ErrDuplicateUserCode, op.ErrInvalidRefreshToken, each bare and wrapped with %w (20 values: 14 core values for the k-th-call plans of every flow variant, 5 of them for the method plans, 3 on warm providers; quick tier: the query / fragment response modes and the non-code authorize variants run the 3 warm values + plain method plans (form_post runs all core values), SMax / SMin / SKeep run cold with the 3 warm values + plain method plans; thorough: every variant and storage like SStd, cold and warm, plain-error method plans on warm providers, and the 6 remaining wrapped values on the first variant of each flow). Fresh store and provider per run, fault-free preparation through the fixture, then ResetJournal + fault plan + the request under test, every request under a 10 s time-out. Observed: status class, OAuth error, journal, number of WriteHeader calls / documents (JSON values, HTML pages), credential kinds anywhere in status / headers / Location / body incl. the form controls of a 200 HTML page (form_post). The seed only varies incidental request values (state, nonce, verifier, user). Non-trivial = a fault plan is set (path != 0); distinct = distinct (flow, router, storage, warm, plan).",
 		Extra: map[string]any{"runs": runs}})
 	if err != nil {
 		fmt.Fprintln(os.Stderr, err)
